@@ -244,3 +244,106 @@ func c14Definition(c *Ctx) {
 		c.R.Check(ok && hasField, "gen:"+g.Name+"/NewExecutableSchema/complexity", c.pos(fn.Pos()), "complexity: cfg.Complexity", "NewExecutableSchema does not hand cfg.Complexity to the schema it builds: every custom complexity function is ignored, operations are costed by the default rule and expensive ones pass the limit")
 	}
 }
+
+// c14Walker: further structural conditions of the complexity walker (second small-slip round).
+func c14Walker(c *Ctx) {
+	c.R.Rule("walker", "package complexity: its loops are left only from their header (every selection / implementor is costed); a parameter is handed on under its own name (childComplexity, args, ctx) when one function of the package calls another; the field-name argument of the cost functions is the selection's Name (not its alias); safeAdd returns the other operand when exactly one is negative", 6)
+	fns := c.moduleFuncs(func(p string) bool { return p == pkgComplex })
+	nLoop, nPass, nName := 0, 0, 0
+	for _, fn := range fns {
+		// loops
+		for i, l := range an.Loops(fn) {
+			nLoop++
+			var at ssa.Instruction
+			for _, e := range l.Exits {
+				if e.From != l.Header {
+					at = e.From.Instrs[len(e.From.Instrs)-1]
+				}
+			}
+			pos := c.pos(fn.Pos())
+			if at != nil {
+				pos = c.ipos(at)
+			}
+			c.R.Check(at == nil, shortFn(fn)+sprintf("/loop#%d", i+1), pos, "left only from the header",
+				"the walk over the selections (or implementors) can stop early: what comes after the element that stops it is not costed, so a query can hide its expensive part behind it and pass the limit")
+		}
+		// pass-through of same-named parameters
+		for _, call := range an.CallsIn(fn, func(_ ssa.CallInstruction, ci an.CalleeInfo) bool {
+			return ci.Static != nil && ci.Static.Pkg != nil && ci.Static.Pkg.Pkg.Path() == pkgComplex && len(ci.Static.Blocks) > 0
+		}) {
+			if call.Parent() != fn {
+				continue
+			}
+			callee := call.Common().StaticCallee()
+			for k, cp := range callee.Params {
+				if callee == fn {
+					break // a recursive call descends: its arguments differ by design
+				}
+				if k >= len(call.Common().Args) || k == 0 && callee.Signature.Recv() != nil {
+					continue
+				}
+				for _, fp := range fn.Params {
+					if fp.Name() != cp.Name() || !types.Identical(fp.Type(), cp.Type()) || fp.Name() == "" || fp.Name() == "_" {
+						continue
+					}
+					nPass++
+					arg := an.Strip(call.Common().Args[k])
+					c.R.Check(arg == ssa.Value(fp) || an.SameVar(arg, fp), shortFn(fn)+"→"+callee.Name()+"/"+cp.Name(), c.ipos(call), "handed on unchanged",
+						"the callee's parameter "+cp.Name()+" does not receive the caller's "+fp.Name()+": the cost of a field's children (or its arguments) is replaced by another number, and the computed complexity is below the definition")
+				}
+			}
+			// the field-name argument
+			for k, cp := range callee.Params {
+				if cp.Name() != "field" || k >= len(call.Common().Args) {
+					continue
+				}
+				arg := an.Strip(call.Common().Args[k])
+				if _, isParam := arg.(*ssa.Parameter); isParam {
+					continue
+				}
+				nName++
+				fa, ok := loadAddr(arg).(*ssa.FieldAddr)
+				c.R.Check(ok && fieldNameOf(fa) == "Name", shortFn(fn)+"→"+callee.Name()+"/field-name", c.ipos(call), "the selection's Name",
+					"the cost functions are asked about a field by something other than its schema name (its alias): an aliased selection is costed with the default instead of its custom complexity")
+			}
+		}
+	}
+	if nLoop < 2 || nPass < 3 || nName < 2 {
+		c.R.Fail("walker: %d loops, %d pass-through arguments, %d field-name arguments examined", nLoop, nPass, nName)
+	}
+	// safeAdd with exactly one negative operand
+	if fn := c.fn(pkgComplex, "safeAdd"); fn != nil && len(fn.Params) == 2 {
+		a, b := fn.Params[0], fn.Params[1]
+		n := 0
+		for _, r := range an.Returns(fn) {
+			neg := map[ssa.Value]int{} // 1: < 0, -1: >= 0
+			for _, f := range an.Facts(r) {
+				k, isC := an.ConstInt(f.Y)
+				if !isC || k != 0 {
+					continue
+				}
+				switch f.Op {
+				case token.LSS:
+					neg[f.X] = 1
+				case token.GEQ:
+					neg[f.X] = -1
+				}
+			}
+			var want ssa.Value
+			switch {
+			case neg[a] == 1 && neg[b] == -1:
+				want = b
+			case neg[a] == -1 && neg[b] == 1:
+				want = a
+			default:
+				continue
+			}
+			n++
+			c.R.Check(len(r.Results) == 1 && an.Strip(r.Results[0]) == want, sprintf("safeAdd/one-negative#%d", n), c.ipos(r), "returns the non-negative operand",
+				"with exactly one negative operand safeAdd does not return the other one: a custom complexity that (accidentally) is negative wipes out or distorts the cost accumulated so far")
+		}
+		if n < 2 {
+			c.R.Fail("walker: safeAdd has %d one-negative returns", n)
+		}
+	}
+}
